@@ -82,7 +82,7 @@ int run_value(const Args& a) {
         status c = cursor_collect(storage, key, scan_endpoint::INCLUSIVE, key, scan_endpoint::INCLUSIVE, r.chance(1, 2), items);
         if (c != status::OK_SCAN_END || items.size() != 1 || items[0].value != o.first) { bad("value:iscan-differs-from-get", "cursor returned a different pointer than get"); }
         rep.distinct(mix64(len_class(want.size()), mix64(al, 3)));
-        rep.eval();
+        rep.eval(3); // get, scan, iscan
         rep.count("cells");
     };
 
